@@ -2,6 +2,7 @@ package main
 
 import (
 	"fmt"
+	"path/filepath"
 	"go/token"
 	"go/types"
 	"math/big"
@@ -39,6 +40,7 @@ func (tr *FnTrans) run() (err error) {
 	}
 	// requires
 	entryEnv := tr.envAt(nil, 0, tr.entryHeap, tr.entryHeap)
+	tr.assumeGlobalInvs("true", tr.entryHeap)
 	if tr.c != nil {
 		for _, l := range tr.c.Lets {
 			tr.lets[l.Name] = l.C.E
@@ -276,11 +278,62 @@ func (tr *FnTrans) loopHeader(h *ssa.BasicBlock, ord int, st *BState, phiVal fun
 				continue
 			}
 			et := al.Type().Underlying().(*types.Pointer).Elem()
-			v := tr.introduce("lpvar_"+al.Comment, et, st.reach, "loop-havoc of local variable")
-			tr.store(st.heap, av.T, et, v.T)
+			paths := tr.loopObjPaths[al]
+			whole := false
+			for _, p := range paths {
+				if len(p) == 0 {
+					whole = true
+				}
+			}
+			if whole || len(paths) == 0 {
+				v := tr.introduce("lpvar_"+al.Comment, et, st.reach, "loop-havoc of local variable")
+				tr.store(st.heap, av.T, et, v.T)
+				continue
+			}
+			// only the fields the loop assigns
+			for _, p := range paths {
+				addr, ft := av.T, et
+				okPath := true
+				for _, fi := range p {
+					stt, isStruct := ft.Underlying().(*types.Struct)
+					if !isStruct || fi >= stt.NumFields() {
+						okPath = false
+						break
+					}
+					addr = tr.fldAddr(addr, stt, fi)
+					ft = stt.Field(fi).Type()
+				}
+				if !okPath {
+					v := tr.introduce("lpvar_"+al.Comment, et, st.reach, "loop-havoc of local variable")
+					tr.store(st.heap, av.T, et, v.T)
+					break
+				}
+				v := tr.introduce("lpfld_"+al.Comment, ft, st.reach, "loop-havoc of assigned field")
+				tr.store(st.heap, addr, ft, v.T)
+			}
 		}
 	}
 	tr.assumeStable(st, preLoopHeap, st.heap)
+	tr.assumeGlobalInvs(st.reach, st.heap)
+	{
+		// local variables the loop does not assign keep their value
+		assigned := map[*ssa.Alloc]bool{}
+		for _, al := range loopObjs {
+			assigned[al] = true
+		}
+		for _, al := range tr.allocs {
+			if assigned[al] || tr.escapeOf(al) {
+				continue
+			}
+			if v, ok := tr.vals[al]; ok {
+				et := al.Type().Underlying().(*types.Pointer).Elem()
+				if at, isArr := et.Underlying().(*types.Array); isArr && at.Len() > maxArrayUnfold {
+					continue
+				}
+				tr.stableCells(st, v.T, et, preLoopHeap, st.heap)
+			}
+		}
+	}
 	{
 		nac := tr.smt.fresh("ac_loop", "Int")
 		tr.assume(st.reach, fmt.Sprintf("(>= %s %s)", nac, st.ac), "allocation counter only grows")
@@ -349,6 +402,7 @@ func (tr *FnTrans) modifiedIn(blocks []*ssa.BasicBlock) (map[string]bool, bool) 
 	}
 	defer func() { tr.curLoopBlocks = nil }()
 	tr.loopObjs = nil
+	tr.loopObjPaths = map[*ssa.Alloc][][]int{}
 	seenObj := map[*ssa.Alloc]bool{}
 	for _, b := range blocks {
 		for _, in := range b.Instrs {
@@ -362,10 +416,35 @@ func (tr *FnTrans) modifiedIn(blocks []*ssa.BasicBlock) (map[string]bool, bool) 
 						seenObj[root] = true
 						tr.loopObjs = append(tr.loopObjs, root)
 					}
+					// field path from the variable to the stored cell (outermost first); an index step
+					// makes it the whole variable
+					var path []int
+					whole := false
+					for cur := x.Addr; cur != ssa.Value(root); {
+						switch y := cur.(type) {
+						case *ssa.FieldAddr:
+							path = append([]int{y.Field}, path...)
+							cur = y.X
+						default:
+							whole = true
+							cur = root
+						}
+					}
+					if whole {
+						path = []int{}
+					}
+					if path == nil {
+						path = []int{}
+					}
+					tr.loopObjPaths[root] = append(tr.loopObjPaths[root], path)
 					continue
 				}
 				tr.cellSorts(x.Val.Type(), mod)
 			case *ssa.MapUpdate:
+				mt := x.Map.Type().Underlying().(*types.Map)
+				ks, vs := tr.smt.sortOf(mt.Key()), tr.smt.sortOf(mt.Elem())
+				mod[fmt.Sprintf("(Array %s Bool)", ks)] = true
+				mod[fmt.Sprintf("(Array %s %s)", ks, vs)] = true
 			case ssa.CallInstruction:
 				m, a := tr.callEffects(x)
 				for k := range m {
@@ -397,7 +476,12 @@ func (tr *FnTrans) instr(st *BState, in ssa.Instruction) {
 		tr.allocs = append(tr.allocs, x)
 	case *ssa.BinOp:
 		a, b := tr.val(x.X), tr.val(x.Y)
-		t := tr.binop(x.Op, a, b, x.Type(), st, x.Pos())
+		var t string
+		if nt, ok := tr.nilCompare(x, a, b); ok {
+			t = nt
+		} else {
+			t = tr.binop(x.Op, a, b, x.Type(), st, x.Pos())
+		}
 		tr.vals[x] = Val{T: tr.smt.define(x.Name(), tr.smt.sortOf(x.Type()), t), Ty: x.Type()}
 	case *ssa.UnOp:
 		tr.unop(st, x)
@@ -465,8 +549,16 @@ func (tr *FnTrans) instr(st *BState, in ssa.Instruction) {
 		n := tr.newLoc(x.Block())
 		tr.vals[x] = Val{T: n, Ty: x.Type()}
 		tr.closures[n] = x
-	case *ssa.MakeMap, *ssa.MakeChan:
-		tr.vals[x.(ssa.Value)] = Val{T: tr.newLoc(in.Block()), Ty: x.(ssa.Value).Type()}
+	case *ssa.MakeMap:
+		m := tr.newLoc(in.Block())
+		mt := x.Type().Underlying().(*types.Map)
+		ks := tr.smt.sortOf(mt.Key())
+		domS := fmt.Sprintf("(Array %s Bool)", ks)
+		cur := st.heap.lookup(domS)
+		st.heap.set(domS, tr.smt.define("Hdom", st.heap.arraySort(domS), fmt.Sprintf("(store %s %s ((as const %s) false))", cur, m, domS)))
+		tr.vals[x] = Val{T: m, Ty: x.Type()}
+	case *ssa.MakeChan:
+		tr.vals[x] = Val{T: tr.newLoc(in.Block()), Ty: x.Type()}
 	case *ssa.MakeSlice:
 		l, c := tr.toIdx(tr.val(x.Len)), tr.toIdx(tr.val(x.Cap))
 		tr.safety("makelen", "make: negative or inconsistent length", st, and(tr.ivLe(tr.lit64(0), l), tr.ivLe(l, c)), x.Pos())
@@ -475,6 +567,14 @@ func (tr *FnTrans) instr(st *BState, in ssa.Instruction) {
 	case *ssa.MapUpdate:
 		m := tr.val(x.Map)
 		tr.safety("nil", "assignment to entry in nil map", st, fmt.Sprintf("(not (= %s nil))", m.T), x.Pos())
+		mt := x.Map.Type().Underlying().(*types.Map)
+		k, v := tr.val(x.Key), tr.val(x.Value)
+		ks, vs := tr.smt.sortOf(mt.Key()), tr.smt.sortOf(mt.Elem())
+		domS := fmt.Sprintf("(Array %s Bool)", ks)
+		valS := fmt.Sprintf("(Array %s %s)", ks, vs)
+		cd, cv := st.heap.lookup(domS), st.heap.lookup(valS)
+		st.heap.set(domS, tr.smt.define("Hdom", st.heap.arraySort(domS), fmt.Sprintf("(store %s %s (store (select %s %s) %s true))", cd, m.T, cd, m.T, k.T)))
+		st.heap.set(valS, tr.smt.define("Hmval", st.heap.arraySort(valS), fmt.Sprintf("(store %s %s (store (select %s %s) %s %s))", cv, m.T, cv, m.T, k.T, v.T)))
 	case *ssa.Next:
 		tup := x.Type().(*types.Tuple)
 		var vs []Val
@@ -512,6 +612,40 @@ func (tr *FnTrans) instr(st *BState, in ssa.Instruction) {
 	default:
 		panic(unsupported(fmt.Sprintf("instruction %T", in)))
 	}
+}
+
+// nilCompare handles == / != against the nil constant for slices and interfaces, where Go compares
+// only the data pointer / the dynamic type.
+func (tr *FnTrans) nilCompare(x *ssa.BinOp, a, b Val) (string, bool) {
+	if x.Op != token.EQL && x.Op != token.NEQ {
+		return "", false
+	}
+	isNilConst := func(v ssa.Value) bool {
+		c, ok := v.(*ssa.Const)
+		return ok && c.Value == nil
+	}
+	var other Val
+	switch {
+	case isNilConst(x.Y):
+		other = a
+	case isNilConst(x.X):
+		other = b
+	default:
+		return "", false
+	}
+	var t string
+	switch other.Ty.Underlying().(type) {
+	case *types.Slice:
+		t = fmt.Sprintf("(= (sbase %s) nil)", other.T)
+	case *types.Interface:
+		t = fmt.Sprintf("(= (itag %s) 0)", other.T)
+	default:
+		return "", false
+	}
+	if x.Op == token.NEQ {
+		t = tr.boolNot(t)
+	}
+	return t, true
 }
 
 // toIdx converts an integer value to the index sort (64-bit / Int).
@@ -1202,6 +1336,7 @@ func (tr *FnTrans) doCall(st *BState, ci ssa.CallInstruction) Val {
 	if !pure {
 		tr.assumeStable(st, site.Before, st.heap)
 		tr.preserveLocals(st, site.Before, st.heap)
+		tr.assumeGlobalInvs(st.reach, st.heap)
 	}
 	site.After = st.heap
 	st.heap = st.heap.child()
@@ -1262,7 +1397,10 @@ func valueName(ci ssa.CallInstruction) string {
 
 // calleeEnv builds the environment in which a callee's contract is evaluated at a call site.
 func (tr *FnTrans) calleeEnv(site *Site, spec *Contract, cc *ssa.CallCommon) *Env {
-	env := &Env{tr: tr, heap: site.After, oldHeap: site.Before, vars: map[string]Val{}, quiet: true}
+	env := &Env{tr: tr, heap: site.After, oldHeap: site.Before, vars: map[string]Val{}, quiet: true, lets: map[string]*Expr{}}
+	for _, l := range spec.Lets {
+		env.lets[l.Name] = l.C.E
+	}
 	if fn, ok := cc.Value.(*ssa.Function); ok && fn.Pkg != nil {
 		env.pkg = fn.Pkg.Pkg
 	} else if cc.IsInvoke() && cc.Method.Pkg() != nil {
@@ -1504,6 +1642,21 @@ func (tr *FnTrans) assumeStable(st *BState, before, after *Heap) {
 			continue
 		}
 		tr.stableCells(st, sv.T, pt.Elem(), before, after)
+	}
+}
+
+// assumeGlobalInvs assumes the package's global invariants (facts about package-level variables that
+// package initialisation establishes and nothing changes afterwards) in the given heap.
+func (tr *FnTrans) assumeGlobalInvs(guard string, h *Heap) {
+	if tr.fn == nil || tr.fn.Pkg == nil {
+		return
+	}
+	pos := tr.fn.Prog.Fset.Position(tr.fn.Pos())
+	invs := tr.eng.globalInvs[filepath.Dir(pos.Filename)]
+	for _, inv := range invs {
+		env := tr.envAt(nil, 0, h, h)
+		tr.assume(guard, env.evalHyp(inv.E), "global invariant: "+inv.Src)
+		tr.usedGlobalInvs[inv.Src] = inv
 	}
 }
 
